@@ -92,7 +92,7 @@ def run(ctx):
     for i, why in bad:
         line = lines[i]
         reason = why.strip().strip('"')
-        term = [e for e in line["sched"] if e in ("x", "xt", "xbig", "eof", "eofd", "rerr", "lclose", "mp", "mhp", "heof", "heofd", "idle")]
+        term = [e for e in line["sched"] if e in ("x", "xt", "xbig", "eof", "eofd", "rerr", "lclose", "lclosew", "mp", "mhp", "heof", "heofd", "idle")]
         pre = [e for e in line["sched"][:line["sched"].index(term[0])] if e in ("mh", "mm", "cn")] if term else []
         sig = "%s:%s:req=%s:term=%s" % (line["via"], reason, "+".join(sorted(set(pre))) or "after", term[0] if term else "none")
         v.report(sig, dict(sched=line["sched"], via=line["via"]), detail="steps=%s goroutines=%d dump=%s note=%s" % (json.dumps(line["steps"])[:300], line["goroutines"], line["dump"][:300], line["note"]))
